@@ -50,6 +50,7 @@ pub fn programs16() -> Vec<Prog> {
     let mut k = every_kind();
     k.ast.items.insert(0, Item::LBreak("first".into()));
     v.push(Prog::new("every-instruction-kind", k.ast, true));
+    v.push(writes_halt_ahead());
     v
 }
 
@@ -69,6 +70,8 @@ pub fn alphabet(_prog: &Prog) -> Vec<Action> {
         Action::of(Cmd::MoveReg(1, 0xFFFF)),
         Action::spelled("bogus command", Cmd::Eval(None)),
         Action::spelled("", Cmd::Eval(None)),
+        // a HALT word written by the debugger over the next instruction
+        Action::of(Cmd::MoveMem(Loc::PcOff(1), 0xF025)),
     ]
 }
 
@@ -169,7 +172,7 @@ pub fn run(ctx: &Ctx) -> i32 {
         ctx,
         acc,
         Level { category: "model_checking", bfs: Some((stats.states, stats.transitions, 2 * stats.transitions, stats.max_depth)) },
-        "explicit-state BFS over command histories (every resuming command incl. counts 1, 2 and 60000, registers, goto first, reset, break add at a label and at the PC, move r1 xFFFF — which redirects the computed jumps to xFFFF —, an unknown command, an empty command) on 10 programs: a straight-line program with every opcode and output trap, and programs that reach PC=xFFFF by a computed jump, PCs below the origin (incl. x0000), xFE00, xFFFE, their own HALT, a program parked on HALT from the start, an ordinary loop and one running off the top of user space. Every transition runs the history twice on the real debugger: followed by end of input (the property's shape) and followed by `exit`; the hooks count loop iterations, executed instructions and consumed commands inside the run, and the check requires termination within the step budget, iterations <= 4*(instructions+commands)+16 and never more than 4 consecutive idle iterations. non-trivial = transitions satisfying the bound",
+        "explicit-state BFS over command histories (every resuming command incl. counts 1, 2 and 60000, registers, goto first, reset, break add at a label and at the PC, move r1 xFFFF — which redirects the computed jumps to xFFFF —, an unknown command, an empty command) on 11 programs: one that stores a HALT word over an instruction it is about to reach, a straight-line program with every opcode and output trap, and programs that reach PC=xFFFF by a computed jump, PCs below the origin (incl. x0000), xFE00, xFFFE, their own HALT, a program parked on HALT from the start, an ordinary loop and one running off the top of user space. Every transition runs the history twice on the real debugger: followed by end of input (the property's shape) and followed by `exit`; the hooks count loop iterations, executed instructions and consumed commands inside the run, and the check requires termination within the step budget, iterations <= 4*(instructions+commands)+16 and never more than 4 consecutive idle iterations. non-trivial = transitions satisfying the bound",
         !stats.capped,
         &["pc=xFFFF", "pc-below-origin", "pc>=xFE00", "pc-in-user-space", "parked-on-halt"],
         &["fuel exhaustion is deterministic (counted loop iterations), so a livelock is a replayable verdict, not a timeout", "constants 4 and 16 are generous on purpose: the statement allows any constant"],
